@@ -137,7 +137,7 @@ HARNESSES = [('h_id_parse', 40), ('h_id_compose', 40), ('h_pgn_fields', 40), ('h
 
 
 def jobs(tier):
-    return [Job('C15', 'c15:' + h, {}, W=W, wall=120, validate=3 if tier == 'quick' else 20) for h, W in HARNESSES]
+    return [Job('C15', 'c15:' + h, {}, W=W, wall=120 if tier == 'quick' else 900, validate=3 if tier == 'quick' else 20, cross=(tier != 'quick')) for h, W in HARNESSES]
 
 
 def meta(tier):
